@@ -9,7 +9,55 @@ Hypotheses used below:  `WF s` array shapes consistent;  `Fresh cfg rnd s` the c
 and step: `binpack_step_fresh`);  `InSpec cfg s e i` the action lies in the action spec.
 -/
 import JumanjiModel.Env.BinPack.Lemmas
+import JumanjiModel.Env.BinPack.Bounds
 open Jm BinPack
+
+namespace Props.C01
+/-!
+`obsBounds cfg dm` (`dm` = the generator's `container_dims`): per axis every EMS coordinate and every item side
+length of the observation lies in `[0, container side]` (raw) resp. `[0, 1]` (`normalize_dimensions`); the four
+bool leaves in `{0, 1}`.  `BoundsInv dm s`: the container is `[0,cx]×[0,cy]×[0,cz]`, EVERY slot of the EMS buffer
+(active or not: the observation shows both) lies inside it, and no item (present or padding) is larger than it.
+`validDrawAll s e i d`: every slot of the successor EMS buffer `d` is the old slot or a non-empty
+`hyperplane(item, axis, dir) ∩ old slot` (what `_add_ems` writes).  `rnd` (float32 rounding of the volumes that
+order the EMSs) is arbitrary; the normalised coordinates are exact quotients.
+-/
+
+/-- `reset` (any generator output: any `n` items none of which is larger than the container, any item mask, any
+buffer size): every leaf of the observation lies in the interval `obsBounds` lists for it -/
+theorem binpack_reset_obs_in_bounds (cfg : Cfg) (rnd : Rat → Rat) (dm : Dims) (maxEms n : Nat) (items : List Item)
+    (itemsMask : List Bool) (h : validReset dm n items itemsMask) :
+    Jm.OB.InBounds (obsBounds cfg dm) (obsLeaves (reset cfg rnd dm maxEms items itemsMask).2.obs) :=
+  BinPack.reset_obs_in_bounds cfg rnd dm maxEms n items itemsMask h
+
+/-- every step — ANY action `(e, i) : Int × Int` (inside or outside the action spec, valid or not), any rounding,
+either reward function, the terminal step included — from a state with the invariant; when the step packs an item
+(`stepValid`), the successor EMS buffer is any draw in `validDrawAll` -/
+theorem binpack_step_obs_in_bounds (cfg : Cfg) (rnd : Rat → Rat) (dm : Dims) (s : State) (e i : Int) (d : EmsDraw)
+    (h : BoundsInv dm s) (hd : stepValid s e i = true → validDrawAll s e i d) :
+    Jm.OB.InBounds (obsBounds cfg dm) (obsLeaves (step cfg rnd s e i d).2.obs) :=
+  BinPack.step_obs_in_bounds cfg rnd dm s e i d h hd
+
+/-- the invariant `BoundsInv` is established by `reset` and preserved by every step -/
+theorem binpack_reset_boundsInv (cfg : Cfg) (rnd : Rat → Rat) (dm : Dims) (maxEms n : Nat) (items : List Item)
+    (itemsMask : List Bool) (h : validReset dm n items itemsMask) :
+    BoundsInv dm (reset cfg rnd dm maxEms items itemsMask).1 := BinPack.reset_inv cfg rnd dm maxEms n items itemsMask h
+theorem binpack_step_boundsInv (cfg : Cfg) (rnd : Rat → Rat) (dm : Dims) (s : State) (e i : Int) (d : EmsDraw)
+    (h : BoundsInv dm s) (hd : stepValid s e i = true → validDrawAll s e i d) :
+    BoundsInv dm (step cfg rnd s e i d).1 := BinPack.step_inv cfg rnd dm s e i d h hd
+
+private def ex : State :=
+  { container := ⟨0, 4, 0, 3, 0, 2⟩, ems := [⟨0, 4, 0, 3, 0, 2⟩, ⟨0, 0, 0, 0, 0, 0⟩], emsMask := [true, false]
+    items := [⟨2, 2, 2⟩, ⟨4, 1, 1⟩], itemsMask := [true, true], itemsPlaced := [false, false]
+    itemsLoc := [⟨0, 0, 0⟩, ⟨0, 0, 0⟩], actionMask := [[true, true], [false, false]], sortedIdx := [0, 1] }
+example : validReset ⟨4, 3, 2⟩ 2 [⟨2, 2, 2⟩, ⟨4, 1, 1⟩] [true, true] := by decide +kernel
+example : (reset ⟨2, false, true⟩ id ⟨4, 3, 2⟩ 2 [⟨2, 2, 2⟩, ⟨4, 1, 1⟩] [true, true]).1 = ex := by decide +kernel
+/-- the hypotheses of the step theorem on a packing step: item 2×2×2 into the corner of the 4×3×2 container; the
+cut above the item (z) is empty and not written, the x and y cuts are -/
+example : BoundsInv ⟨4, 3, 2⟩ ex ∧ stepValid ex 0 0 = true ∧
+    validDrawAll ex 0 0 ⟨[⟨2, 4, 0, 3, 0, 2⟩, ⟨0, 4, 2, 3, 0, 2⟩], [true, true]⟩ ∧
+    validDraw ex 0 0 ⟨[⟨2, 4, 0, 3, 0, 2⟩, ⟨0, 4, 2, 3, 0, 2⟩], [true, true]⟩ := by decide +kernel
+end Props.C01
 
 namespace Props.C04
 /-- entry `[e][i]` of the L1 mask is set exactly when the rules allow putting item `i` into the
